@@ -270,11 +270,21 @@ fn unwind_json(u: &UnwindAction) -> String {
     }
 }
 
-pub fn dump_body<'tcx>(tcx: TyCtxt<'tcx>, def: LocalDefId, body: &Body<'tcx>) -> String {
+pub fn dump_body<'tcx>(tcx: TyCtxt<'tcx>, def: LocalDefId, body: &Body<'tcx>, promoted: Option<usize>) -> String {
     let did = def.to_def_id();
     let mut o = Obj::new();
-    o.str("t", "body");
-    o.str("path", &def_name(tcx, did));
+    match promoted {
+        None => {
+            o.str("t", "body");
+            o.str("path", &def_name(tcx, did));
+        }
+        Some(i) => {
+            o.str("t", "promoted");
+            o.str("path", &format!("{}::promoted[{}]", def_name(tcx, did), i));
+            o.str("owner", &def_name(tcx, did));
+            o.num("idx", i as i128);
+        }
+    }
     let kind = tcx.def_kind(did);
     o.str("kind", &format!("{:?}", kind));
     let (file, line, _) = span_info(tcx, body.span);
